@@ -39,7 +39,30 @@ def proj_coord(c, mode="int"):
         if isinstance(c, tuple) and all(isinstance(x, int) and not isinstance(x, bool) for x in c):
             return True, list(c)
         return False, None
+    if mode == "seqflat":
+        # nested tuples (pair-style flattening) are flattened; the nesting is logged separately by the executor
+        def flat(x):
+            if isinstance(x, int) and not isinstance(x, bool):
+                return [x]
+            if isinstance(x, tuple):
+                out = []
+                for y in x:
+                    f = flat(y)
+                    if f is None:
+                        return None
+                    out += f
+                return out
+            return None
+        f = flat(c)
+        return (f is not None), f
     raise ValueError(mode)
+
+
+def nesting(c):
+    """shape of a coordinate: 'i' for an int, '(..)' for a tuple"""
+    if isinstance(c, tuple):
+        return "(" + "".join(nesting(x) for x in c) + ")"
+    return "i"
 
 
 def proj_value(v):
